@@ -584,9 +584,15 @@ class Interp:
             c = s.tobool(s.ex(n.test, env))
             return s.ite(c, s.ex(n.body, env), s.ex(n.orelse, env))
         if isinstance(n, ast.Compare):
-            if len(n.ops) != 1:
-                raise Unsupported("chained comparison")
-            return s.compare(n.ops[0], s.ex(n.left, env), s.ex(n.comparators[0], env))
+            # python: a < b <= c  ==  (a < b) and (b <= c), each operand evaluated once (expressions
+            # of the subset have no side effects). The pinned library refuses chains; if a version
+            # accepts them this is what they must mean
+            vals = [s.ex(n.left, env)] + [s.ex(c, env) for c in n.comparators]
+            r = None
+            for op_, a_, b_ in zip(n.ops, vals, vals[1:]):
+                c_ = s.compare(op_, a_, b_)
+                r = c_ if r is None else VB(z3.And(r.t, c_.t), z3.And(r.ok, c_.ok))
+            return r
         if isinstance(n, ast.Subscript):
             return s.index(s.ex(n.value, env), n.slice, env)
         if isinstance(n, ast.Call) and isinstance(n.func, ast.Name):
